@@ -42,14 +42,20 @@ def gen_world(seed, tier):
                 "max_multiplicity": mult, "lowerbound": rng.choice([1, 1, 1, 2]), "solver_options": {}}
         if rng.random() < 0.3:
             args["remove_complement_values"] = False
-        if mult == 1 and rng.random() < 0.25:
-            # a partition of total that the hidden base can realise
-            groups = [[] for _ in range(rng.randint(2, 3))]
-            for b in base:
-                rng.choice(groups).append(b)
-            pc = [sum(gp) for gp in groups if gp]
-            if len(pc) >= 2:
-                args["partition_constraints"] = [pc]
+        if mult == 1 and rng.random() < 0.3:
+            # partitions of total that the hidden base can realise
+            pcs = []
+            for _ in range(rng.choice([1, 1, 2, 3])):
+                groups = [[] for _ in range(rng.randint(2, 3))]
+                for b in base:
+                    rng.choice(groups).append(b)
+                pc = [sum(gp) for gp in groups if gp]
+                if len(pc) >= 2 and pc not in pcs:
+                    pcs.append(pc)
+            if pcs:
+                args["partition_constraints"] = pcs
+                if rng.random() < 0.5:
+                    args["numbers"] = args["numbers"][:1]     # few numbers: the constraints decide the size
         return {"class": "MinGenSet", "graph": None, "args": args}
     nu = rng.randint(2, 6)
     universe = list(range(nu))
@@ -73,6 +79,12 @@ def plans(world, info, seed, tier):
     specs = []
     for pol in (["canonical", "alt", "alt+noise", "noise"] if tier == "quick" else ["canonical", "alt", "alt", "alt+noise", "alt+noise", "noise", "noise"]):
         specs.append({"world": world, "sim": {"latency": "instant", "reply": pol, "reply_seed": rng.randrange(1 << 30), "faults": []}})
+    if world["class"] == "MinSetCover":
+        for kind in (["time_limit_no_incumbent", "time_limit_with_incumbent"] if tier == "quick" else ["time_limit_no_incumbent", "time_limit_with_incumbent", "interrupt", "unknown", "solution_limit"]):
+            f = {"at": 0, "kind": kind}
+            if kind == "time_limit_with_incumbent":
+                f["incumbent"] = "feasible"
+            specs.append({"world": world, "sim": {"latency": "instant", "reply": "canonical", "reply_seed": rng.randrange(1 << 30), "faults": [f]}})
     if world["class"] == "MinGenSet":
         for j in range(2 if tier == "quick" else 4):
             specs.append({"world": world, "sim": {"latency": "instant", "reply": rng.choice(["canonical", "alt+noise"]), "reply_seed": rng.randrange(1 << 30),
@@ -160,6 +172,8 @@ def execute(spec):
                     V("not_minimum_weight", {"solution": sol, "weight": sum(weights[i] for i in sol), "minimum": best, "witness": sel})
         elif fired == 0:
             V("unsolved_although_cover_exists", {"minimum": best})
+        if out["solved"] and any(inv.get("delivered") not in ("kOptimal",) for inv in sim.invocations[-1:]):
+            V("solved_on_inconclusive_reply", {"delivered": sim.invocations[-1].get("delivered"), "solution": out.get("solution")})
     seen, uniq = set(), []
     for v in vs:
         if v.key not in seen:
